@@ -58,7 +58,15 @@ def gen_type(rng, depth, pv=4, allow_vector=True, allow_udt=True, counter=[0], s
         counter[0] += 1
         nf = rng.randint(1, 4)
         names = rng.sample(['a', 'b', 'c', 'd', 'e', 'f_1', 'Zz', 'x y', '1st', 'class'], nf)
-        return ('udt', 'ks1', 'udt%d' % counter[0], tuple((n, sub()) for n in names))
+        # mostly fresh type names, but regularly the SAME (keyspace, name) with a different shape: the driver keeps a
+        # per-name class cache (a type that was dropped and re-created with other field types must not decode stale)
+        r = rng.random()
+        if r < 0.25:
+            # same name, same field names, same OUTER field kinds, different inner parameters (list<int> vs list<text>)
+            return ('udt', 'ks1', rng.choice(['addr', 'udt_a']),
+                    (('a', ('list', (rng.choice(scalars),))), ('b', ('map', (rng.choice(scalars),), (rng.choice(scalars),)))))
+        uname = 'udt%d' % counter[0] if r < 0.8 else rng.choice(['addr', 'udt_a', 'udt_b'])
+        return ('udt', 'ks1', uname, tuple((n, sub()) for n in names))
     if k == 'vector':
         return ('vector', sub(), rng.randint(1, 4))
     raise AssertionError(k)
